@@ -4,7 +4,7 @@ Request threads run under sys.settrace; they park *before* executing an anchor l
 points of the lock protocol) and are released one at a time by the controller, so the interleaving is
 forced, never raced.  The controller records one event per executed segment (anchor .. next anchor)
 with the lock flag and session clock sampled while every thread is parked."""
-import importlib, json, sys, threading
+import importlib, json, re, sys, threading
 
 ANCHORS = [  # (module, substring, action name)
     ("BPTK_Py.server.bptkServer", "instance.try_lock()", "T"),
@@ -20,18 +20,21 @@ class Machinery(Exception):
     pass
 
 
-def anchor_map():
+def anchor_map(anchors=None, required=None):
     amap, found = {}, set()
-    for modname, sub, act in ANCHORS:
+    for modname, sub, act in (anchors or ANCHORS):
         mod = importlib.import_module(modname)
         fn = mod.__file__
         with open(fn) as f:
             for no, line in enumerate(f, 1):
                 code = line.split("#")[0]
-                if sub in code.replace(" ", "") or sub in code:
+                if (sub.startswith("re:") and re.search(sub[3:], code)) or (not sub.startswith("re:") and (sub in code.replace(" ", "") or sub in code)):
                     amap[(fn, no)] = act
                     found.add(act)
-    if not ({"R", "W", "U"} <= found and ({"T"} <= found or {"C", "K"} <= found)):
+    if required is not None:
+        if not required <= found:
+            raise Machinery("anchor lines not found in the sources: %s" % sorted(found))
+    elif not ({"R", "W", "U"} <= found and ({"T"} <= found or {"C", "K"} <= found)):
         raise Machinery("anchor lines not found in the sources: %s" % sorted(found))
     return amap
 
@@ -67,7 +70,7 @@ class Worker:
     def _local_trace(self, frame, event, arg):
         if event == "line":
             act = self.ctl.amap.get((frame.f_code.co_filename, frame.f_lineno))
-            if act is not None:
+            if act is not None and (self.ctl.park_filter is None or self.ctl.park_filter(frame)):
                 with self.ctl.cv:
                     self.parked_at = act
                     self.go.clear()
@@ -78,8 +81,9 @@ class Worker:
 
 
 class Controller:
-    def __init__(self, probe):
-        self.amap = anchor_map()
+    def __init__(self, probe, anchors=None, required=None, park_filter=None):
+        self.park_filter = park_filter
+        self.amap = anchor_map(anchors, required)
         self.files = {fn for fn, _ in self.amap}
         self.cv = threading.Condition()
         self.workers = {}
